@@ -401,6 +401,8 @@ pub fn run(r: &mut Runner) {
     r.probe("regress:literal-line-ends", |c| probe_doc(c, "Tagging", "<Tagging><TagSet><Tag><Key>a\r\nb\rc</Key><Value>v&#xD;</Value></Tag></TagSet></Tagging>", "retraction:line-ends"));
     r.probe("regress:junk-after-white-space-after-root", |c| probe_doc(c, "Tagging", "<Tagging><TagSet></TagSet></Tagging>\n</Tagging>", "trailing-text-accepted"));
     r.probe("regress:bare-ampersand-in-timestamp", |c| probe_doc(c, "LifecycleExpiration", "<Root><Date>2029-05-18&22:29:49.000Z</Date></Root>", "accepts-malformed:unterminated-entity"));
+    r.probe("regress:line-ends-across-pieces", |c| probe_doc(c, "Tagging", "<Tagging><TagSet><Tag><Key>a\r<!--c-->\nb</Key><Value>v</Value></Tag></TagSet></Tagging>", "retraction:line-ends"));
+    r.probe("regress:reference-split-by-cdata", |c| probe_doc(c, "Tagging", "<Tagging><TagSet><Tag><Key>a&<![CDATA[amp;]]></Key><Value>v</Value></Tag></TagSet></Tagging>", "accepts-malformed:unterminated-entity"));
     r.probe("regress:unknown-entity-in-skipped-text", |c| probe_doc(c, "Tagging", "<Tagging>&Lt;<TagSet></TagSet></Tagging>", "accepts-malformed:unterminated-entity"));
     let n_types = codecs().len() as u64;
     r.note(format!("{n_types} XML codec types read from the tree"));
